@@ -131,6 +131,12 @@ def run(pid, tier, seed, replay=None):
         # every stage of a pipeline, under every terminator (incl. capture()'s stderr pipe)
         from . import api_scen, c_api
         pscs = api_scen.fam_pipelines(seed, tier == "thorough")[::(1 if tier == "thorough" else 2)]
+        # the same with standard descriptors of the parent closed: the connecting pipes and capture()'s stderr pipe are
+        # created on -- and moved away from -- the numbers 0-2
+        cl = [dict(x, id=x["id"] + "-closed", closed_std=c) for x, c in
+              zip([y for y in pscs if y["term"] in ("capture", "communicate", "popen") and y["stdin"] != "inherit"
+                   and y["stdout"] != "inherit" and y["stderr"] != "inherit"][:18], [[0], [0, 1], [0, 1, 2]] * 6)]
+        pscs += cl
         pscs += api_scen.fam_race(seed, tier == "thorough")
         presults, pstates, pblocks, pnote = c_api.run_api(pid, tier, seed, pscs, "C08pl")
         pnew, pknown, pothers, _, _ = c_api.classify(pid, pscs, presults, pblocks, "C08_", "api")
